@@ -80,7 +80,7 @@ fn policy(n: usize, party: usize, leader: usize, out: bool, id: Uuid, prog: &str
     let mut constants = HashMap::new(); if consts && party == 0 && prog.contains("PARTY_0::K") { constants.insert(if WRONG_CONST.load(Ordering::SeqCst) { "M" } else { "K" }.to_string(), Literal::from(5u8)); }
     if consts && party == 2 && prog.contains("PARTY_2::L") { constants.insert("L".to_string(), Literal::from(5u8)); }
     Policy { computation_id: id, participants: (0..n).map(|i| Url::parse(&format!("http://h{i}")).unwrap()).collect(), program: prog.to_string(), leader, party,
-        input: Literal::from((party as u8) + 3), output: if out { Some(Url::parse(&format!("http://out{party}")).unwrap()) } else { None }, constants }
+        input: if *BAD_INPUT.lock().unwrap() == Some(party) { Literal::True } else { Literal::from((party as u8) + 3) }, output: if out { Some(Url::parse(&format!("http://out{party}")).unwrap()) } else { None }, constants }
 }
 fn expected_prog(n: usize, prog: &str) -> String { let s: u8 = (0..n as u8).map(|p| p + 3).sum::<u8>() + 5 * prog.matches("= PARTY_").count() as u8; format!("Ok({s})") }
 fn expected(n: usize, consts: bool) -> String { let s: u8 = (0..n as u8).map(|p| p + 3).sum::<u8>() + if consts { 5 } else { 0 }; format!("Ok({s})") }
@@ -125,6 +125,8 @@ static LATE_POLICY: Mutex<Option<Policy>> = Mutex::new(None);
 static LATE_TASK: Mutex<Option<tokio::task::JoinHandle<Result<Result<(), HandleError<ScheduleError>>, tokio::time::error::Elapsed>>>> = Mutex::new(None);
 /// party 0 announces its constant under a wrong name (`M` instead of `K`): the program type-checks and validates, compilation fails after the constants exchange
 static WRONG_CONST: std::sync::atomic::AtomicBool = std::sync::atomic::AtomicBool::new(false);
+/// this party's input literal does not have the type the program expects (`true` for a `u8` parameter): `run()` ends with `InvalidInput` after validation
+static BAD_INPUT: Mutex<Option<usize>> = Mutex::new(None);
 /// the leader of the scenario that is running (stray policies name it, so that a stray schedule at a follower is a follower's schedule)
 static LEADER: AtomicUsize = AtomicUsize::new(0);
 async fn do_inject(s: &Sys, inj: Inject, log: &mut Vec<String>) {
@@ -444,7 +446,7 @@ async fn main() {
                     let (n, leader, dest) = (2usize, case % 2, case < 14); let outs = vec![dest; 2];
                     WRONG_CONST.store(true, Ordering::SeqCst);
                     let o = scenario(n, leader, &outs, true, &vec![P2C; n], &vec![leader; n], 1, &mut r, None, |_, _| None).await; execs += 1;
-                    WRONG_CONST.store(false, Ordering::SeqCst);
+                    WRONG_CONST.store(false, Ordering::SeqCst); correspond(&mut m, &o, Some("compile"), &mut disagreements, &mut steps);
                     *dist.entry("end:compile-error".into()).or_default() += 1; distinct.insert(format!("compile-error {leader} {dest}"));
                     let mut bad = vec![];
                     if o.finished.iter().any(|f| !f) { bad.push(format!("state machines still running after the policy ended with a compile error: {:?}", o.finished)); }
@@ -453,6 +455,22 @@ async fn main() {
                     if dest { for p in 0..n { let got: Vec<&String> = o.outputs.iter().filter(|(q, _)| *q == p).map(|(_, s)| s).collect(); if got.len() != 1 || !got[0].starts_with("Err(") { bad.push(format!("party {p} destination got {got:?}, want one error notification")); } } }
                     if !bad.is_empty() { failures.push(json!({"witness": "C17:compile-error-end", "failure": bad, "case": json!({"n": n, "leader": leader, "destinations": dest, "constant_announced_as": "M", "program_reads": "PARTY_0::K", "outputs": o.outputs, "log": o.log})})); }
                     if samples.len() < 3 { samples.push(json!({"compile_error_end": {"leader": leader, "permits": o.permits, "outputs": o.outputs}})); }
+                    continue;
+                }
+                // corpus: the LEADER's own input literal has the wrong type: its run ends with `InvalidInput` after validation (its followers wait for an
+                // MPC that never starts — nothing is claimed about them); the leader's state machine ends, it is notified, its permit is back
+                if case >= 16 && case < 20 {
+                    let (n, leader, dest) = (2usize, case % 2, case < 18); let outs = vec![dest; 2];
+                    *BAD_INPUT.lock().unwrap() = Some(leader);
+                    let o = scenario(n, leader, &outs, false, &vec![P2; n], &vec![leader; n], 1, &mut r, None, |_, _| None).await; execs += 1;
+                    *BAD_INPUT.lock().unwrap() = None;
+                    *dist.entry("end:leader-invalid-input".into()).or_default() += 1; distinct.insert(format!("invalid-input {leader} {dest}"));
+                    let mut bad = vec![];
+                    if !o.finished[leader] { bad.push("the leader's state machine is still running after its run ended with InvalidInput".to_string()); }
+                    if o.permits[leader] != 1 { bad.push(format!("leader's permits after its policy ended: {}, budget 1", o.permits[leader])); }
+                    if o.panicked.iter().any(|p| *p) { bad.push("actor panicked".into()); }
+                    if dest { let got: Vec<&String> = o.outputs.iter().filter(|(q, _)| *q == leader).map(|(_, s)| s).collect(); if got.len() != 1 || !got[0].starts_with("Err(") { bad.push(format!("leader's destination got {got:?}, want one error notification")); } }
+                    if !bad.is_empty() { failures.push(json!({"witness": "C17:leader-invalid-input-end", "failure": bad, "case": json!({"n": n, "leader": leader, "destinations": dest, "outputs": o.outputs, "finished": o.finished, "permits": o.permits, "log": o.log})})); }
                     continue;
                 }
                 // corpus first: every RPC kind x both leaders x destinations absent/present (n = 2), deterministically; then seeded random scenarios
